@@ -23,6 +23,9 @@ type History struct {
 	// same write as message i. The reply to message i must still be there at quiescence: a reply is
 	// delivered without waiting for further client input.
 	Carry []int `json:"carry,omitempty"`
+	// TLS: the whole session runs inside a TLS session negotiated with SSLRequest (the server gets a
+	// certificate); what the protocol does must not depend on the transport.
+	TLS bool `json:"tls,omitempty"`
 }
 
 // Outcome of playing a history.
@@ -55,14 +58,26 @@ type Options struct {
 // Run plays h and returns the first disagreement with the model.
 func Run(h History, opt Options) *Outcome {
 	o := &Outcome{}
+	if h.TLS {
+		h.Cfg.TLS = "cert"
+	}
 	env := script.Start(h.Cfg)
 	o.Env = env
 	if !opt.KeepEnv {
 		defer env.Stop()
 	}
-	s := env.NewSess()
+	var s script.Session
+	if h.TLS {
+		ts, err := env.NewTLSSess()
+		if err != nil {
+			return o.fail(opt.Prefix+"/tls-negotiation", "TLS negotiation failed: %v", err)
+		}
+		s = ts
+	} else {
+		s = env.NewSess()
+	}
 	if h.Segs != nil {
-		s.C.SetSegments(h.Segs, h.Cycle)
+		s.Conn().SetSegments(h.Segs, h.Cycle)
 	}
 	user := h.User
 	if user == "" {
